@@ -129,10 +129,10 @@ Proof. exact kind_floor_int. Qed.
 Print Assumptions C01_kind_floor_is_integer.
 
 (* ---- structural verbs with counts, at the level of the dispatcher (m_dyad / m_monad by Python function name) ---- *)
-(* Take: any count (negative, overshooting: cycling), strings and every list whose NumPy array is 1-D
-   (vectors, ragged and mixed lists); matrices with a count beyond the number of rows are the class "take-matrix" *)
+(* Take: any count (negative, overshooting: cycling), strings and every list — matrices and higher rank cycle
+   through their rows since the fix: commit *)
 Theorem C01_take : forall n b, canonical b = true ->
-  dom_dyad "eval_dyad_take" (VI n) b = true -> (npdepth b <= 1)%nat ->
+  dom_dyad "eval_dyad_take" (VI n) b = true ->
   m_dyad "eval_dyad_take" (VI n) b = s_dyad "eval_dyad_take" (VI n) b.
 Proof. exact take_holds. Qed.
 Print Assumptions C01_take.
@@ -184,7 +184,7 @@ Print Assumptions C01_reverse.
 (* Join: every pair of operands (two characters excepted), outside the classes "join-ragged" (member arrays of equal
    length but different shape: ValueError) and "homogenise" (the joined list would be homogenised) *)
 Theorem C01_join : forall a b, canonical a && canonical b = true ->
-  dom_dyad "eval_dyad_join" a b = true -> join_ragged a b = false ->
+  dom_dyad "eval_dyad_join" a b = true ->
   norm (VL (members a ++ members b)) = VL (members a ++ members b) ->
   m_dyad "eval_dyad_join" a b = s_dyad "eval_dyad_join" a b.
 Proof. exact join_holds. Qed.
@@ -286,8 +286,6 @@ Theorem C01_broadcast_refuted : refutes_d "broadcast" "eval_dyad_add" (VL [VI 1;
 Proof. exact refuted_broadcast. Qed.
 Theorem C01_reshape_nested_refuted : refutes_d "reshape-nested" "eval_dyad_reshape" (VL [VI 2]) (VL [VL [VI 1; VI 2; VI 3]]) = true.
 Proof. exact refuted_reshape_nested. Qed.
-Theorem C01_join_ragged_refuted : refutes_d "join-ragged" "eval_dyad_join" m22 a223 = true.
-Proof. exact refuted_join_ragged. Qed.
 Theorem C01_match_ints_refuted_without_fix : isclose_gen false (VI 100000) (VI 100001) = true /\ s_same (VI 100000) (VI 100001) = false.
 Proof. exact match_ints_without_fix. Qed.
 
